@@ -32,13 +32,30 @@ EXPLANATION = (
     "only inside callbacks of self.consumer.when_done(), chains such an upload on every way through, and returns that Deferred (so that "
     "_do_close closes the consumer only afterwards); when_done() returns a new Deferred fired only from a callback of self.done, "
     "self.done is created unfired and fired only by download_done(). "
-    "Undecided: byte-level results of arbitrary histories, heap ordering (heapq), interleavings with the reactor; liveness "
+    "Decided on the consumer's bookkeeping as a whole (every method of the class, nested callbacks and local aliases included, and stores from "
+    "outside the class): (i) a record leaves the pending-overwrite heap only by a heappop in the own body of write() / its merge helper; "
+    "any other pop, remove, clear, del, element store or re-binding of the heap - wherever it is - is reported unless it happens after "
+    "is_closed was set, re-binds the heap to a copy / re-ordering of itself, replaces the first record by one with start <= its start and "
+    "end >= its end, or is a filter [ELT for (s, e) in heap if C] whose dropped records (C false) provably start at/after a bound the "
+    "download never passes again (download_size, current_size, a parameter every way through the method clamps download_size to) or end "
+    "at/before self.downloaded or lie inside a region (a, b) that the method pushes onto the heap on every way afterwards, and whose ELT keeps the record's start (or lowers it) and its end (or raises it, or clips it to such a bound); "
+    "(j) in write() a record is taken off the heap only after the first record was read since the last change of the heap and found to start "
+    "before the end of the chunk (while merging: at/before the merged end), and from every take every way to the write of the chunk's rest, to "
+    "the next record, or out of write() re-queues (., end), skips the chunk to end, or passes end < self.downloaded; (k) self.downloaded is "
+    "stored only by __init__ / _update_downloaded, which only write() calls - with the end of the chunk, or with a value established to lie "
+    "between self.downloaded and the end of the chunk - (other methods may pass / store self.downloaded itself or min(self.downloaded, B) for "
+    "such a bound B); self.current_size is stored only by __init__ / overwrite / set_current_size; every store of self.download_size after "
+    "__init__ is min(self.download_size, .) or guarded by . < self.download_size; a waiting reader leaves self.milestones only by a heappop "
+    "in _update_downloaded / download_done. "
+    "Undecided: whether a record pushed onto the heap outside overwrite() / write() denotes bytes the client really wrote; whether a store "
+    "that lowers download_size outside set_current_size stops the download too early; a heap handed to code outside the class "
+    "(ANALYSIS-ERROR); removals hidden behind setattr / __dict__; byte-level results of arbitrary histories, heap ordering (heapq), interleavings with the reactor; liveness "
     "(a milestone that is never released, an overwrite region that is not merged / a milestone not extended over it, a download "
     "that is not declared done after a truncation only delay reads); the `size < downloaded` truncate clause of set_current_size "
     "(value-level: no reachable state was found in which it alone matters); whether read() at offset == current_size raises "
     "EOFError or returns b''; behaviour of overwrite()/read() on a closed consumer; which uploader the commit picks (mutable / immutable) and the result "
     "of a failed download; requests arriving after close().")
-TECHNIQUE = "static analysis: CFG x monitor path rules with flow-sensitive normal forms (monotone-update, must-precede, pairing), Deferred-chain registration model"
+TECHNIQUE = "static analysis: CFG x monitor path rules with flow-sensitive normal forms (monotone-update, must-precede, pairing), Deferred-chain registration model, who-may-mutate classification of every use of the bookkeeping state"
 
 CLS = "frontends.sftpd:OverwriteableFileConsumer"
 
@@ -542,6 +559,337 @@ def _check_merge_helper(r, caller, call_node, call, H, comp, caller_end, caller_
                             % (H.name, HEAP, EH, bad[0][1].brief()), bad[0][1])
                 break
     return analysed
+
+
+# ---------------------------------------------------------------- who may take records out of a heap
+_HEAPQ_TAKING = ("heappop",)
+_HEAPQ_REPLACING = ("heapreplace", "heappushpop")
+_HEAPQ_KEEPING = ("heappush", "heapify")
+_LIST_REMOVING = ("pop", "remove", "clear", "__delitem__", "__setitem__", "__init__", "__imul__")
+_LIST_KEEPING = ("append", "extend", "insert", "sort", "reverse", "copy", "index", "count", "__len__", "__iter__", "__getitem__",
+                 "__contains__")
+_PURE_READERS = ("len", "list", "sorted", "tuple", "iter", "bool", "enumerate", "repr", "str", "min", "max", "sum", "any", "all",
+                 "id", "reversed", "nsmallest", "nlargest", "isinstance", "type", "zip", "set", "frozenset")
+
+
+def _parent_map(root):
+    par = {}
+    for p_ in ast.walk(root):
+        for c in ast.iter_child_nodes(p_):
+            par[id(c)] = p_
+    return par
+
+
+def _heap_events(root, is_heap_path):
+    """Every use of the heap (an expression whose attribute path satisfies `is_heap_path`, or a local alias of it) inside
+    `root` (nested functions and lambdas included), classified by what it does to the heap's records:
+      ('pop', call)        heapq.heappop(H)
+      ('replace', call)    heapq.heapreplace(H, x) / heappushpop(H, x)
+      ('remove', node, what)   H.pop() / H.remove() / H.clear() / del H[..] / H[..] = x / H *= n / del H
+      ('rebind', stmt, value or None)   H = value (None: bound by a loop / with / unpacking)
+      ('keep', node)       heappush / heapify / append / sort / H += x ...: no record leaves
+      ('escape', node, what)   the list itself is handed to code this rule does not follow
+    Reads (len, H[0], iteration, tests, formatting, copies) are not reported."""
+    par = _parent_map(root)
+    aliases = set()
+
+    def is_heap(e):
+        if isinstance(e, ast.Name):
+            return e.id in aliases
+        p_ = attr_path(e)
+        return p_ is not None and isinstance(e, ast.Attribute) and is_heap_path(p_)
+    changed = True
+    while changed:
+        changed = False
+        for st in ast.walk(root):
+            if isinstance(st, ast.Assign) and is_heap(st.value):
+                for t in st.targets:
+                    if isinstance(t, ast.Name) and t.id not in aliases:
+                        aliases.add(t.id)
+                        changed = True
+    out = []
+
+    def enclosing_stmt(x):
+        while x is not None and not isinstance(x, ast.stmt):
+            if isinstance(x, ast.comprehension):
+                return x
+            x = par.get(id(x))
+        return x
+    for x in ast.walk(root):
+        if not isinstance(x, (ast.Attribute, ast.Name)) or not is_heap(x):
+            continue
+        p_ = par.get(id(x))
+        if isinstance(x.ctx, (ast.Store, ast.Del)):
+            st = enclosing_stmt(x)
+            if isinstance(x, ast.Name):
+                # (re-)binding of a local alias: only `alias = H` keeps it an alias
+                if not (isinstance(st, ast.Assign) and is_heap(st.value) and any(t is x for t in st.targets)):
+                    out.append(("escape", x, "the local `%s` names the heap and is bound to something else as well" % x.id))
+                continue
+            if isinstance(st, ast.Assign):
+                out.append(("rebind", st, st.value if any(t is x for t in st.targets) else None))
+            elif isinstance(st, ast.AnnAssign):
+                if st.value is not None:
+                    out.append(("rebind", st, st.value))
+            elif isinstance(st, ast.AugAssign):
+                if isinstance(st.op, ast.Add):
+                    out.append(("keep", st))
+                else:
+                    out.append(("remove", st, "an augmented assignment"))
+            elif isinstance(st, ast.Delete):
+                out.append(("remove", st, "del"))
+            else:
+                out.append(("rebind", st if st is not None else x, None))
+            continue
+        # a load
+        if isinstance(p_, ast.Subscript) and p_.value is x:
+            if isinstance(p_.ctx, (ast.Store, ast.Del)):
+                out.append(("remove", enclosing_stmt(p_) or p_, "an element / slice store" if isinstance(p_.ctx, ast.Store) else "del of an element / slice"))
+            continue
+        if isinstance(p_, ast.Attribute) and p_.value is x:
+            pp = par.get(id(p_))
+            if isinstance(pp, ast.Call) and pp.func is p_:
+                if p_.attr in _LIST_REMOVING:
+                    out.append(("remove", pp, ".%s()" % p_.attr))
+                elif p_.attr in _LIST_KEEPING:
+                    out.append(("keep", pp))
+                else:
+                    out.append(("escape", pp, "the method .%s()" % p_.attr))
+            else:
+                out.append(("escape", p_, "the bound method .%s" % p_.attr))
+            continue
+        if isinstance(p_, ast.Call) and p_.func is not x:
+            t = call_tail(p_)
+            first = bool(p_.args) and p_.args[0] is x
+            if t in _HEAPQ_TAKING and first:
+                out.append(("pop", p_))
+            elif t in _HEAPQ_REPLACING and first:
+                out.append(("replace", p_))
+            elif t in _HEAPQ_KEEPING and first:
+                out.append(("keep", p_))
+            elif (t in _PURE_READERS and call_name(p_) in (t, "heapq." + t)) or t in ("log", "msg"):
+                pass
+            else:
+                out.append(("escape", p_, "the call %s(..)" % (call_name(p_) or "?")))
+            continue
+        if isinstance(p_, (ast.Assign, ast.AnnAssign)) and p_.value is x:
+            tg = p_.targets if isinstance(p_, ast.Assign) else [p_.target]
+            if not all(isinstance(t, ast.Name) for t in tg):
+                out.append(("escape", p_, "a second reference stored in %s" % ", ".join(filter(None, (attr_path(t) for t in tg)))))
+            continue
+        if isinstance(p_, (ast.Return, ast.Yield, ast.YieldFrom, ast.Await, ast.NamedExpr, ast.Lambda, ast.Dict, ast.Set, ast.keyword)):
+            out.append(("escape", p_, "a %s" % type(p_).__name__.lower()))
+            continue
+        if isinstance(p_, (ast.Tuple, ast.List)):
+            q = p_
+            while isinstance(q, (ast.Tuple, ast.List)):
+                q = par.get(id(q))
+            if not (isinstance(q, ast.BinOp) and isinstance(q.op, ast.Mod)) and not isinstance(q, (ast.FormattedValue, ast.JoinedStr)):
+                out.append(("escape", p_, "a container holding the list"))
+            continue
+        # tests, comparisons, iteration, arithmetic (H + [..] builds a new list), formatting, bare expressions: reads
+    return out
+
+
+def _keeps_all(v, is_heap):
+    """Does expression v evaluate to a list holding every record of the heap (possibly re-ordered, possibly with more)?"""
+    if is_heap(v):
+        return True
+    if isinstance(v, ast.Call) and call_name(v) in ("list", "sorted") and len(v.args) == 1 \
+            and all(k.arg in ("key", "reverse") for k in v.keywords):
+        return _keeps_all(v.args[0], is_heap)
+    if isinstance(v, ast.Call) and isinstance(v.func, ast.Attribute) and v.func.attr == "copy" and not v.args and not v.keywords:
+        return _keeps_all(v.func.value, is_heap)
+    if isinstance(v, ast.Subscript) and isinstance(v.slice, ast.Slice) and v.slice.lower is None and v.slice.upper is None \
+            and v.slice.step is None:
+        return _keeps_all(v.value, is_heap)
+    if isinstance(v, ast.BinOp) and isinstance(v.op, ast.Add):
+        return _keeps_all(v.left, is_heap) or _keeps_all(v.right, is_heap)
+    return False
+
+
+def _reach_bounds(m):
+    """Normal forms B such that, once method m has returned, the download never delivers a byte at or beyond B:
+    self.download_size (write() clips every chunk to it), self.current_size (download_size <= current_size is the class
+    invariant, restored by set_current_size before it returns - C39.6), and a never re-bound parameter p of m when every
+    way through m establishes download_size <= p (stores download_size = p, or passes that comparison)."""
+    out = {"self.download_size", "self.current_size"}
+    if isinstance(m.node, ast.Lambda):
+        return out
+    g = m.cfg()
+    fnm = FlowNorm(m)
+    rebound = {x.id for x in ast.walk(m.node) if isinstance(x, ast.Name) and isinstance(x.ctx, (ast.Store, ast.Del))}
+    for p_ in first_positional_params(m):
+        if p_ in rebound:
+            continue
+
+        def clamps(x, _p=p_):
+            return "self.download_size" in node_stores(x) and attr_path(assign_value(x, "self.download_size")) == _p
+
+        def below(t, lab, _p=p_):
+            return _le_fact(fnm.edge_fact(t, lab), "self.download_size", _p) is not None
+        if not find_path_avoiding(g, lambda x: x.kind == "exit", gate_node=clamps, gate_edge=below, skip_exc_edges=True):
+            out.add(p_)
+    return out
+
+
+def _alternatives(nm, e, pol, limit=64):
+    """Condition e being true (pol) / false (not pol), as a list of alternatives, each a list of canonical comparisons that
+    all hold in that alternative (an empty list: nothing is known)."""
+    while isinstance(e, ast.UnaryOp) and isinstance(e.op, ast.Not):
+        e, pol = e.operand, not pol
+    if isinstance(e, ast.Compare) and len(e.ops) > 1:
+        terms = [e.left] + list(e.comparators)
+        e = ast.BoolOp(op=ast.And(), values=[ast.Compare(left=terms[i], ops=[e.ops[i]], comparators=[terms[i + 1]]) for i in range(len(e.ops))])
+    if isinstance(e, ast.BoolOp):
+        subs = [_alternatives(nm, v, pol, limit) for v in e.values]
+        conj = isinstance(e.op, ast.And) if pol else isinstance(e.op, ast.Or)    # all parts hold / all parts fail
+        if not conj:
+            return [a for sub in subs for a in sub][:limit] if sum(len(x) for x in subs) <= limit else [[]]
+        alts = [[]]
+        for sub in subs:
+            alts = [a + b_ for a in alts for b_ in sub]
+            if len(alts) > limit:
+                return [[]]
+        return alts
+    try:
+        f = nm.cmp(e, pol)
+    except Exception:
+        f = None
+    return [[f]] if f else [[]]
+
+
+def _unreachable_or_covered(facts, s, en, bounds, covers):
+    """Do the comparisons `facts` (all hold) show that the download can no longer touch the record (s, en) - it starts at/after a
+    reach bound, or ends at/before the downloaded position - or that a region (a, b) of `covers` contains it?"""
+    def le(a, b_):
+        return any(_le_fact(f, a, b_) is not None for f in facts) or _same_src(a, b_)
+    if any(le(B, s) for B in sorted(bounds)) or le(en, "self.downloaded"):
+        return True
+    return any(le(a, s) and le(en, b_) for (a, b_) in covers)
+
+
+def _same_src(a, b_):
+    try:
+        return norm_src(a) == norm_src(b_)
+    except Exception:
+        return False
+
+
+def _covering_pushes(m, stmt, heap=HEAP):
+    """Regions (a, b) - normal forms - that method m pushes onto the heap on every way from statement `stmt` to its return,
+    with a and b not re-bound in between."""
+    if isinstance(m.node, ast.Lambda) or not any(x is stmt for x in func_own_nodes(m)):
+        return []
+    g = m.cfg()
+    R = _cfg_node_of(g, stmt)
+    if R is None:
+        return []
+    nm = N(m)
+    out = []
+    for P in g.stmt_nodes():
+        for c in node_calls(P):
+            if not (call_tail(c) == "heappush" and len(c.args) == 2 and attr_path(c.args[0]) == heap
+                    and isinstance(c.args[1], ast.Tuple) and len(c.args[1].elts) == 2):
+                continue
+            a, b_ = c.args[1].elts
+            if find_path_from_to_avoiding(g, lambda x, _R=R: x is _R, lambda x, _P=P: x is _P):
+                continue
+            names = names_in(a) | names_in(b_)
+            if find_path_avoiding(g, lambda x, _P=P: x is _P, gate_node=lambda x, _R=R: x is _R, start=R,
+                                  kill=lambda x, _k=names, _R=R: x is not _R and bool(_k & node_stores(x)), skip_exc_edges=True):
+                continue
+            out.append((nm.norm(a), nm.norm(b_)))
+    return out
+
+
+def _rebind_loss(m, stmt, value, is_heap):
+    """`H = value` outside the constructor: None when every record of H that the download can still reach is kept (or covered
+    by the record that replaces it), else a description of what is lost."""
+    if value is None:
+        return "is bound by a loop / with / unpacking target"
+    if _keeps_all(value, is_heap):
+        return None
+    comp = value
+    if isinstance(comp, ast.Call) and call_name(comp) in ("list", "sorted") and len(comp.args) == 1 \
+            and all(k.arg in ("key", "reverse") for k in comp.keywords):
+        comp = comp.args[0]
+    if not isinstance(comp, (ast.ListComp, ast.GeneratorExp)) or (isinstance(comp, ast.GeneratorExp) and comp is value):
+        if isinstance(value, (ast.List, ast.Tuple)) and not value.elts or (isinstance(value, ast.Call) and call_name(value) == "list" and not value.args):
+            return "is emptied: every pending overwrite record is forgotten"
+        return "is re-bound to `%s`, which is not shown to keep the pending records" % src(m, value)
+    if len(comp.generators) != 1 or comp.generators[0].is_async or not _keeps_all(comp.generators[0].iter, is_heap):
+        return "is re-bound to `%s`, which is not a filter over the heap's own records" % src(m, value)
+    gen = comp.generators[0]
+    t = gen.target
+    rec = None
+    if isinstance(t, (ast.Tuple, ast.List)) and len(t.elts) == 2 and all(isinstance(x, ast.Name) for x in t.elts):
+        s, en = t.elts[0].id, t.elts[1].id
+    elif isinstance(t, ast.Name):
+        rec = t.id
+        s, en = "%s[0]" % rec, "%s[1]" % rec
+    else:
+        return "is re-bound to `%s` (records are not unpacked as (start, end))" % src(m, value)
+    bounds = _reach_bounds(m)
+    nm = N(m)
+    # what each kept record becomes
+    elt = comp.elt
+    if not (rec is not None and isinstance(elt, ast.Name) and elt.id == rec):
+        if not (isinstance(elt, ast.Tuple) and len(elt.elts) == 2):
+            return "rewrites each record as `%s`, which is not a (start, end) pair covering the record" % src(m, elt)
+        S, E = elt.elts
+
+        def same(x, y):
+            try:
+                return norm_plain(x) == norm_src(y)
+            except Exception:
+                return False
+
+        def is_call(x, name):
+            return isinstance(x, ast.Call) and call_name(x) == name and not x.keywords and len(x.args) >= 2
+        ok_s = same(S, s) or (is_call(S, "min") and any(same(a, s) for a in S.args))
+        ok_e = same(E, en) or (is_call(E, "max") and any(same(a, en) for a in E.args)) or \
+            (is_call(E, "min") and len(E.args) == 2 and any(same(a, en) for a in E.args)
+             and any(norm_plain(a) in bounds for a in E.args if not same(a, en)))
+        if not ok_s:
+            return "rewrites each record's start as `%s`: bytes of the record before that are no longer protected" % src(m, S)
+        if not ok_e:
+            return "rewrites each record's end as `%s`: bytes of the record beyond that, which the download can still reach, are no " \
+                   "longer protected" % src(m, E)
+    covers = _covering_pushes(m, stmt)
+    for c in gen.ifs:
+        if not all(_unreachable_or_covered(alt, s, en, bounds, covers) for alt in _alternatives(nm, c, False)):
+            return ("drops every record for which `%s` is false, although such a record can start below the point the download "
+                    "still reaches and is not contained in a region recorded instead (it is dropped whole, also when it straddles "
+                    "that point)" % src(m, c))
+    return None
+
+
+def _store_targets(st):
+    """Flattened store / delete targets of a statement-like AST node."""
+    tg = []
+    if isinstance(st, ast.Assign):
+        tg = list(st.targets)
+    elif isinstance(st, (ast.AugAssign, ast.AnnAssign)):
+        tg = [st.target]
+    elif isinstance(st, ast.Delete):
+        tg = list(st.targets)
+    elif isinstance(st, (ast.For, ast.AsyncFor, ast.comprehension)):
+        tg = [st.target]
+    elif isinstance(st, (ast.With, ast.AsyncWith)):
+        tg = [i.optional_vars for i in st.items if i.optional_vars is not None]
+    elif isinstance(st, ast.NamedExpr):
+        tg = [st.target]
+    flat = []
+    while tg:
+        t = tg.pop()
+        if isinstance(t, (ast.Tuple, ast.List)):
+            tg.extend(t.elts)
+        elif isinstance(t, ast.Starred):
+            tg.append(t.value)
+        else:
+            flat.append(t)
+    return flat
 
 
 def run(ctx: Context):
@@ -1439,3 +1787,346 @@ def run(ctx: Context):
                     r.site(m, st, "self.done created")
                     r.require(isinstance(st.value, ast.Call) and call_tail(st.value) == "Deferred" and not st.value.args, m, m.loc(st),
                               "self.done is %s, not an unfired Deferred" % src(m, st.value))
+
+    # -- (i) records leave the overwrite heap only when write() has consumed them ------------------------------
+    with ctx.rule("C39.11", "R1", "OverwriteableFileConsumer: a record leaves the pending-overwrite heap (the heap overwrite() pushes to and "
+                  "write() consults) only by a heappop in write() / its merge helper (decided by C39.1/.2/.10/.12); any other removal, "
+                  "filter or re-binding - in whatever method - keeps, for every record, a record covering the part the download can "
+                  "still reach (start below download_size, end beyond downloaded)", expected=3) as r:
+        O = idx.func(CLS + ".overwrite")
+        roles = {attr_path(c.args[0]) for c in calls_in_func(O, "heappush") if c.args}
+        if roles != {HEAP}:
+            raise AnchorVanished("overwrite(): the heap it records written regions in is %s, the rules are written for %s" % (sorted(map(str, roles)), HEAP))
+        consumers = [W] + list(merge_helpers)
+        prefix_q = OC.qual + "."
+
+        def is_h(p_):
+            return p_ == HEAP
+
+        def is_heap_expr(e, _al=None):
+            return attr_path(e) == HEAP and isinstance(e, ast.Attribute)
+        def after_close(m, node):
+            # the consumer has been closed on every way to `node`: write() drops every later chunk, overwrite() refuses
+            g = m.cfg()
+            cn_ = _cfg_node_of(g, node)
+            if cn_ is None:
+                return False
+            mn_ = FlowNorm(m)
+
+            def closes(x):
+                return "self.is_closed" in node_stores(x) and _truthy_const(assign_value(x, "self.is_closed"))
+
+            def closed(t, lab):
+                f = mn_.edge_fact(t, lab)
+                return bool(f) and f[0] == "truth" and f[1] == "self.is_closed"
+            return not find_path_avoiding(g, lambda x: x is cn_, gate_node=closes, gate_edge=closed,
+                                          kill=lambda x: "self.is_closed" in node_stores(x) and not closes(x))
+        for m in OC.methods.values():
+            evs = _heap_events(m.node, is_h)
+            own = None
+            for ev in evs:
+                kind, node = ev[0], ev[1]
+                if kind == "keep":
+                    continue
+                if kind == "escape":
+                    raise AnalysisError("%s(): %s is handed on through %s; which records leave the heap cannot be decided" % (m.name, HEAP, ev[2]))
+                if own is None:
+                    own = list(func_own_nodes(m))
+                in_own = any(x is node for x in own)
+                if in_own and m.name != "__init__" and not any(m is c for c in consumers) and after_close(m, node):
+                    r.site(m, node, "after the consumer was closed")
+                    continue
+                if kind == "pop":
+                    r.site(m, node, "record taken off the heap")
+                    r.require(in_own and any(m is c for c in consumers), m, m.loc(node),
+                              "%s() takes a record off %s (%s): only write() may, for the record the downloaded chunk has reached; "
+                              "a record removed anywhere else no longer protects the client's bytes, which the next download chunks "
+                              "overwrite" % (m.name, HEAP, src(m, node)))
+                    continue
+                if kind == "rebind":
+                    if m.name == "__init__" and in_own:
+                        r.site(m, node, "heap created")
+                        continue
+                    r.site(m, node, "heap re-bound")
+                    loss = _rebind_loss(m, node, ev[2], is_heap_expr)
+                    r.require(loss is None, m, m.loc(node), "%s(): %s %s; the download then overwrites the client's bytes of the "
+                              "dropped part when it reaches them" % (m.name, HEAP, loss))
+                    continue
+                if kind == "replace":
+                    r.site(m, node, "first record replaced")
+                    okc = False
+                    if in_own and len(node.args) == 2 and isinstance(node.args[1], ast.Tuple) and len(node.args[1].elts) == 2:
+                        g = m.cfg()
+                        cn_ = _cfg_node_of(g, node)
+                        S, E = node.args[1].elts
+                        for (n0, s0, e0) in _heap_top_unpack(m, g):
+                            if cn_ is None or not s0 or not e0:
+                                continue
+                            if find_path_avoiding(g, lambda x, _c=cn_: x is _c, gate_node=lambda x, _n=n0: x is _n,
+                                                  kill=lambda x, _n=n0, _k={s0, e0}: x is not _n and (_mutates_heap(x) or bool(_k & node_stores(x)))):
+                                continue
+                            ok_s = attr_path(S) == s0 or (isinstance(S, ast.Call) and call_name(S) == "min" and any(attr_path(a) == s0 for a in S.args))
+                            ok_e = attr_path(E) == e0 or (isinstance(E, ast.Call) and call_name(E) == "max" and any(attr_path(a) == e0 for a in E.args))
+                            okc = okc or (ok_s and ok_e)
+                    r.require(okc, m, m.loc(node), "%s() replaces the first record of %s by %s, which is not shown to cover the record "
+                              "it removes (start <= its start, end >= its end)" % (m.name, HEAP, src(m, node.args[1]) if len(node.args) > 1 else "?"))
+                    continue
+                # remove
+                r.site(m, node, "removal")
+                r.violation(m, m.loc(node), "%s() removes records from %s by %s (%s): a pending record is forgotten although the "
+                            "download has not passed it; the next download chunks overwrite the client's bytes"
+                            % (m.name, HEAP, ev[2], src(m, node)))
+        # code outside the class
+        cg_ = get_callgraph(idx)
+        tail_ = HEAP.split(".")[-1]
+        seen_fn = set()
+        for (fn, _node) in list(cg_.attr_stores(tail_)) + list(cg_.refs_named(tail_)):
+            top = fn
+            while top.parent is not None:
+                top = top.parent
+            if top.qual.startswith(prefix_q) or id(top) in seen_fn or not hasattr(top.node, "body"):
+                continue
+            seen_fn.add(id(top))
+            for ev in _heap_events(top.node, lambda p_: p_.split(".")[-1] == tail_ and "." in p_):
+                if ev[0] in ("keep", "escape"):
+                    continue
+                r.site(top, ev[1], "outside the consumer")
+                r.violation(top, top.loc(ev[1]), "%s() changes the consumer's overwrite heap from outside (%s): records leave it only "
+                            "in OverwriteableFileConsumer.write()" % (top.name, src(top, ev[1])))
+
+    # -- (j) write(): a record is taken off only after it was examined, and is then accounted for ---------------------
+    with ctx.rule("C39.12", "R1", "write(): a record is taken off the overwrite heap only after the first record was read and found to start "
+                  "before the end of the delivered chunk (or, while merging, at/before the merged end); afterwards, before the chunk is "
+                  "written / the next record is examined / write() returns, the (merged) region is re-queued, skipped over in the chunk, "
+                  "or known to end before the downloaded position", expected=2) as r:
+        def helper_call(n):
+            return any(any(_self_method_call(c, OC) is h for h in merge_helpers) for c in node_calls(n))
+        helper_pops = {h.qual: any(_heap_pops(x) for x in h.cfg().nodes if x.kind not in ("entry", "exit", "raise")) for h in merge_helpers}
+        takes = [n for n in cfg.nodes if n.kind not in ("entry", "exit", "raise") and (_heap_pops(n) or helper_call(n))]
+        if not takes:
+            raise AnchorVanished("write(): no record is ever taken off %s" % HEAP)
+        top_idx = {id(t[0]): k for k, t in enumerate(tops)}
+
+        def guard_ok(k, f):
+            (_n, s, e) = tops[k]
+            if not s or not f:
+                return False
+            if e == end_v:      # the region that is compared with the chunk
+                return _le_fact(f, s, ND) is not None or _le_fact(f, s, want_nd) is not None
+            return _le_fact(f, s, end_v) is not None
+
+        def tr_g(n, lab, nxt, st):
+            if lab == "exc":
+                return None
+            if n.kind in ("entry", "exit", "raise"):
+                return st
+            k, held = st
+            if id(n) in top_idx:
+                return (top_idx[id(n)], False)
+            if _mutates_heap(n) or helper_call(n):
+                return (-1, False)
+            if k >= 0 and tops[k][1] in node_stores(n):
+                return (-1, False)
+            if k >= 0 and not held and guard_ok(k, fnorm.edge_fact(n, lab)):
+                held = True
+            return (k, held)
+        vis_g, par_g = explore(cfg, (-1, False), tr_g)
+        r.count(len(vis_g))
+        for P in takes:
+            if not _heap_pops(P) and _popped_between(cfg, outer[0], P) is not False:
+                continue        # the helper merges the records that follow the one write() popped: its pops are decided by C39.10
+            r.site(W, P.ast, "taken after examination")
+            bad = sorted((nid, st) for (nid, st) in vis_g if nid == P.id and not st[1])
+            if bad:
+                w = witness(cfg, par_g, bad[0])
+                what = "a record it has not read since the heap last changed" if bad[0][1][0] < 0 else \
+                    "the record `%s` without having established that it starts before the end of the chunk / at or before the merged end" % tops[bad[0][1][0]][1]
+                r.violation(W, W.loc(P.ast), "write() takes off %s %s: a record the download has not reached is consumed (its region, "
+                            "or the gap before it, is then wrongly skipped or left unprotected) (path: %s)" % (HEAP, what, w.brief()), w)
+        # accounting
+        # (the write of the chunk's prefix in front of the region - data[:start - downloaded], decided by C39.2 - ends before it)
+        fw12 = [n for n in cfg.stmt_nodes() if any(call_name(c) == "self.f.write" and not (
+            c.args and isinstance(c.args[0], ast.Subscript) and isinstance(c.args[0].slice, ast.Slice) and c.args[0].slice.lower is None
+            and c.args[0].slice.upper is not None) for c in node_calls(n))]
+        skip12 = [n for n in cfg.stmt_nodes() if isinstance(n.ast, ast.Assign) and attr_path(n.ast.targets[0]) == DATA
+                  and isinstance(n.ast.value, ast.Subscript) and isinstance(n.ast.value.slice, ast.Slice)
+                  and n.ast.value.slice.upper is None and n.ast.value.slice.lower is not None
+                  and end_v in names_in(n.ast.value.slice.lower)]
+        push12 = [n for n in cfg.stmt_nodes() if any(call_tail(c) == "heappush" and len(c.args) == 2 and attr_path(c.args[0]) == HEAP
+                                                     and isinstance(c.args[1], ast.Tuple) and len(c.args[1].elts) == 2
+                                                     and attr_path(c.args[1].elts[1]) == end_v for c in node_calls(n))]
+        next_turn = [t[0] for t in tops if t[2] == end_v]
+        for P in takes:
+            r.site(W, P.ast, "taken record accounted for")
+
+            def is_target(x):
+                return x.kind == "exit" or any(x is y for y in fw12) or any(x is y for y in next_turn)
+
+            def tr_a(n, lab, nxt, st, _P=P):
+                if lab == "exc":
+                    return None
+                if n is not _P and is_target(n):
+                    return None
+                if any(n is y for y in skip12) or any(n is y for y in push12):
+                    return True
+                if n is not _P and n.kind not in ("entry", "exit", "raise") and end_v in node_stores(n):
+                    st = False
+                f = fnorm.edge_fact(n, lab)
+                if f and _le_fact(f, end_v, "self.downloaded") is not None:
+                    st = True
+                return st
+            vis_a, par_a = explore(cfg, False, tr_a, start=P)
+            r.count(len(vis_a))
+            for (nid, st) in sorted(vis_a):
+                x = cfg.nodes[nid]
+                if x is not P and is_target(x) and not st:
+                    w = witness(cfg, par_a, (nid, st))
+                    where = "returns" if x.kind == "exit" else ("writes the downloaded data" if any(x is y for y in fw12) else "examines the next record")
+                    r.violation(W, W.loc(P.ast), "write() takes a record off %s and then %s without having re-queued the region up to `%s`, "
+                                "skipped the chunk to `%s`, or established %s < self.downloaded: the client's bytes of that region are "
+                                "overwritten by this or a later chunk (path: %s)" % (HEAP, where, end_v, end_v, end_v, w.brief()), w)
+                    break
+
+    # -- (k) sibling bookkeeping: who may move it -----------------------------------------------------------------
+    with ctx.rule("C39.13", "R1", "OverwriteableFileConsumer: self.downloaded is moved only by _update_downloaded, called by write() (never to a "
+                  "position before self.downloaded or beyond the end of the chunk); any other method leaves it where it is or clamps it "
+                  "to a bound the download size is clamped to as well (min(self.downloaded, B)); self.current_size is stored only by the "
+                  "client operations overwrite / set_current_size; self.download_size never grows after __init__; a waiting reader "
+                  "leaves self.milestones only where it is released (_update_downloaded, download_done)", expected=10) as r:
+        U = idx.func(CLS + "._update_downloaded")
+        may_store = {"self.downloaded": ("__init__", U.name),
+                     "self.current_size": ("__init__", "overwrite", "set_current_size")}
+        why = {"self.downloaded": "the download stream's next chunk is then written at the wrong offset (over bytes the client wrote, or "
+                                  "leaving bytes that were never downloaded)",
+               "self.current_size": "reads are clipped to / the commit uploads a size that no write or truncation asked for",
+               "self.download_size": "the download then writes original bytes beyond a truncation point, over the zeros / the data written "
+                                     "there since"}
+
+        def owner_of(m, st):
+            for f in [m] + list(_all_nested(m).values()):
+                if any(x is st for x in func_own_nodes(f)):
+                    return f
+            return None
+
+        def harmless_position(m, e):
+            """The downloaded position is left alone, or clamped to a bound B with download_size <= B when m returns: write()
+            ignores the rest of the stream then (downloaded >= download_size)."""
+            if e is None:
+                return False
+            if attr_path(e) == "self.downloaded":
+                return True
+            if isinstance(e, ast.Call) and call_name(e) == "min" and len(e.args) == 2 and not e.keywords \
+                    and any(attr_path(a) == "self.downloaded" for a in e.args):
+                other = [a for a in e.args if attr_path(a) != "self.downloaded"]
+                return len(other) == 1 and norm_plain(other[0]) in _reach_bounds(m)
+            return False
+        for m in OC.methods.values():
+            own = list(func_own_nodes(m))
+            for st in ast.walk(m.node):
+                for t in _store_targets(st):
+                    p_ = attr_path(t)
+                    if p_ in may_store:
+                        r.site(m, st, "%s stored" % p_)
+                        if m.name in may_store[p_] and any(x is st for x in own):
+                            continue
+                        if p_ == "self.downloaded" and isinstance(st, ast.Assign) and any(x is st for x in own) \
+                                and harmless_position(m, st.value if any(tt is t for tt in st.targets) else None):
+                            continue
+                        r.violation(m, m.loc(st), "%s is re-bound in %s() (`%s`), outside %s: %s"
+                                    % (p_, m.name, src(m, st), " / ".join(may_store[p_]), why[p_]))
+                    elif p_ == "self.download_size" and m.name != "__init__":
+                        r.site(m, st, "self.download_size stored")
+                        f = owner_of(m, st)
+                        n = _cfg_node_of(f.cfg(), st) if f is not None else None
+                        v = assign_value(n, p_) if n is not None else None
+                        if v is None:
+                            r.violation(m, m.loc(st), "self.download_size is re-bound by `%s`, which is not shown not to raise it: %s"
+                                        % (src(m, st), why[p_]))
+                            continue
+                        if isinstance(v, ast.Call) and call_name(v) == "min" and not v.keywords and any(attr_path(a) == p_ for a in v.args):
+                            continue
+                        fn_ = FlowNorm(f)
+                        vs = src(f, v)
+
+                        def lower(t, lab, _vs=vs, _fn=fn_):
+                            return _le_fact(_fn.edge_fact(t, lab), _vs, "self.download_size") is not None
+                        for (t, w) in find_path_avoiding(f.cfg(), lambda x, _n=n: x is _n, gate_edge=lower,
+                                                         kill=lambda x, _k=names_in(v) | {p_}, _n=n: x is not _n and bool(_k & node_stores(x))):
+                            r.violation(m, m.loc(st), "%s() can raise self.download_size (`%s` is neither min(self.download_size, .) nor guarded by "
+                                        ". < self.download_size): %s (path: %s)" % (m.name, src(m, st), why[p_], w.brief()), w)
+        cg_ = get_callgraph(idx)
+        prefix_q = OC.qual + "."
+        for p_ in list(may_store) + ["self.download_size"]:
+            for (fn, node) in cg_.attr_stores(p_.split(".")[-1]):
+                if fn.qual.startswith(prefix_q):
+                    continue
+                ap = attr_path(node) or ""
+                if fn.module is W.module or "consumer" in ap:
+                    r.site(fn, node, "stored outside the consumer")
+                    r.violation(fn, fn.loc(node), "%s of the consumer is re-bound from outside (%s in %s()): %s" % (p_, ap, fn.name, why[p_]))
+        # _update_downloaded: who calls it, and with what
+        bad, badrefs, _total = callers_outside(idx, U.name, [x.qual for x in [W] + list(merge_helpers)])
+        for cs in bad:
+            a0 = cs.call.args[0] if len(cs.call.args) == 1 and not cs.call.keywords else None
+            r.site(cs.fn, cs.call, "%s() outside write()" % U.name)
+            top = cs.fn
+            while top.parent is not None:
+                top = top.parent
+            r.require(top is cs.fn and cs.fn.qual.startswith(prefix_q) and harmless_position(cs.fn, a0), cs.fn, cs.fn.loc(cs.call),
+                      "%s() moves the downloaded position (%s): only write() knows how far the download stream has got; %s"
+                      % (cs.fn.name, src(cs.fn, cs.call), why["self.downloaded"]))
+        for (fn, node) in badrefs:
+            r.site(fn, node, "%s referenced" % U.name)
+            r.violation(fn, fn.loc(node), "%s is handed out as a value in %s(): the downloaded position can then be moved by code that does "
+                        "not consume the download stream" % (U.name, fn.name))
+        for n in cfg.nodes:
+            if n.kind in ("entry", "exit", "raise"):
+                continue
+            for c in calls_at(n, U.name):
+                r.site(W, c, "downloaded advanced")
+                if len(c.args) != 1 or c.keywords:
+                    raise AnalysisError("write(): unexpected call shape %s" % src(W, c))
+                X = c.args[0]
+                if is_nd(fnorm.norm(n, X)):
+                    continue
+                xs = src(W, X)
+
+                def not_back(t, lab, _xs=xs):
+                    return _le_fact(fnorm.edge_fact(t, lab), "self.downloaded", _xs) is not None
+                kills = names_in(X) | {"self.downloaded"}
+                for (t, w) in find_path_avoiding(cfg, lambda x, _n=n: x is _n, gate_edge=not_back,
+                                                 kill=lambda x, _k=kills, _n=n: x is not _n and (bool(_k & node_stores(x)) or bool(calls_at(x, U.name)))):
+                    r.violation(W, W.loc(c), "write() sets the downloaded position to `%s` without having established %s >= self.downloaded: "
+                                "the position can move backwards and the next chunk is written over bytes already settled (path: %s)"
+                                % (xs, xs, w.brief()), w)
+
+                # .. and not beyond the end of this chunk: the call that ends write() sets the position to that end
+                def in_chunk(t, lab, _xs=xs):
+                    f = fnorm.edge_fact(t, lab)
+                    return _le_fact(f, _xs, ND) is not None or _le_fact(f, _xs, want_nd) is not None
+                for (t, w) in find_path_avoiding(cfg, lambda x, _n=n: x is _n, gate_edge=in_chunk,
+                                                 kill=lambda x, _k=names_in(X) | {ND}, _n=n: x is not _n and bool(_k & node_stores(x))):
+                    r.violation(W, W.loc(c), "write() sets the downloaded position to `%s` without having established %s <= %s (the end of "
+                                "this chunk): the final advance to %s then moves the position backwards and the next chunk is written "
+                                "over bytes already settled (path: %s)" % (xs, xs, ND, ND, w.brief()), w)
+        # self.milestones: a waiter is removed only where it is released
+        MH = "self.milestones"
+        releasers = ("_update_downloaded", "download_done")
+        for m in OC.methods.values():
+            own = None
+            for ev in _heap_events(m.node, lambda p_: p_ == MH):
+                kind, node = ev[0], ev[1]
+                if kind == "keep":
+                    continue
+                if kind == "escape":
+                    raise AnalysisError("%s(): %s is handed on through %s; which waiters leave it cannot be decided" % (m.name, MH, ev[2]))
+                if own is None:
+                    own = list(func_own_nodes(m))
+                in_own = any(x is node for x in own)
+                if kind == "rebind" and m.name == "__init__" and in_own:
+                    r.site(m, node, "milestones created")
+                    continue
+                r.site(m, node, "waiter removed")
+                r.require(kind == "pop" and in_own and m.name in releasers, m, m.loc(node),
+                          "%s() removes waiting readers from %s (%s) outside the loops that release them (%s): the read's Deferred never "
+                          "fires" % (m.name, MH, src(m, node), " / ".join(releasers)))
